@@ -177,7 +177,7 @@ CHECKS['C16'] = dict(
 CHECKS['C08'] = dict(
     level='model_checking',
     steps=[dict(mode='asan', bin='c08_history')],
-    rule='roots = fonts {S-min, S-full, small.ttf, S-full with pass bits (segments made of certain glyphs skip passes), S-twoclass (one glyph in two lookup classes), S-full with ONE unreadable glyph (demand-loading faces substitute glyph 0 on every lookup; preloading faces refuse the font)} (thorough + Padauk) x faceOptions {0, preloadGlyphs, cacheCmap, preloadAll} x font {gr_make_font, advance-callback font}; '
+    rule='roots = fonts {S-min, S-full, small.ttf, S-full with pass bits (segments made of certain glyphs skip passes), S-twoclass (one glyph in two lookup classes), S-full-excl (every mark names a collision exclusion glyph that the text need not contain), S-full with ONE unreadable glyph (demand-loading faces substitute glyph 0 on every lookup; preloading faces refuse the font)} (thorough + Padauk) x faceOptions {0, preloadGlyphs, cacheCmap, preloadAll} x font {gr_make_font, advance-callback font}; '
          'operations on ONE face and ONE font: 32 gr_make_seg variants (4 texts x dir x features x font/NULL, up to 2 live segments), destroy, justify, linebreak, feature/value label, featureval_for_lang, is_char_supported, full face dump, second font create/destroy; '
          'two searches per root: BFS to depth 4 (thorough 6) deduplicated on the mutable-state key (set of loaded glyphs, set of loaded boxes, loader present, name table read, set of cached advances, live segments) and a plain enumeration without deduplication to depth 2 (thorough 3); '
          'in EVERY visited state 72 probe segments (texts x dir {0,1,3} x features {default, language, modified} x {font, NULL}) and the face dump are compared with those of a fresh face. Each history is replayed on a fresh face. '
